@@ -2,14 +2,24 @@
 pub ghost struct Store {
     pub prices: Map<Seq<char>, Seq<PriceData>>,   // cw_storage_plus::Map<String, Vec<PriceData>>("prices")
     pub admin: Option<Addr>,
-    pub config_set: bool,
+    pub config: Option<Config>,   // cosmwasm_storage singleton KEY_CONFIG
 }
 pub ghost struct World { pub _w: int }
+#[verifier::external_body]
+pub fn singleton_load__KEY_CONFIG(storage: &dyn Storage) -> (r: StdResult<Config>)
+    ensures
+        r is Ok <==> storage.view().config is Some,   // `load` fails exactly when the cell is empty; a stored value always deserialises (T4)
+        r is Ok ==> r->Ok_0 == storage.view().config->Some_0,
+{ unimplemented!() }
+#[verifier::external_body]
+pub fn singleton_may_load__KEY_CONFIG(storage: &dyn Storage) -> (r: StdResult<Option<Config>>)
+    ensures r is Ok, r->Ok_0 == storage.view().config,
+{ unimplemented!() }
 #[verifier::external_body]
 pub fn singleton_save__KEY_CONFIG(storage: &mut dyn Storage, v: &Config) -> (r: StdResult<()>)
     ensures
         r is Ok,   // serde serialisation of these plain types cannot fail (T4)
-        r is Ok ==> final(storage).view() == (Store { config_set: true, ..old(storage).view() }),
+        r is Ok ==> final(storage).view() == (Store { config: Some(*v), ..old(storage).view() }),
         r is Err ==> final(storage).view() == old(storage).view(),
 { unimplemented!() }
 #[verifier::external_body]
